@@ -1134,10 +1134,34 @@ its GAP scan (`HQ3`: both stations up to date with the log, whose last entry is 
 theorem gap_request_answered_not_ready (cfg : Cfg) (hok : cfg.Ok) (G : Nat) (hG : cfg.slot + 3 * cfg.P ≤ G) (x y : Nat)
     (r : Int) (r0 : TokenRing) (T : List Telegram) (aL aH : Nat) (hnr : (hearAll aL T r0).readyForRing = false)
     (evs : List (Nat × Int)) (n : Net) (stx sty : NetStation) (coll : Nat) (tl : Int)
-    (hq : HQ cfg G n x y stx sty r r0 T coll tl) (hN : n.stations.length = 2) (haL : stx.s.p.address = aL)
+    (hq : HQ cfg G n x y stx sty r r0 T .masterNotReady coll tl) (hN : n.stations.length = 2) (haL : stx.s.p.address = aL)
     (haH : sty.s.p.address = aH) (hs : SchedN cfg.P n tl evs) :
-    RplRun cfg x y aL aH (r + 2 * ((cfg.ce 5 : Nat) : Int) + (cfg.b33 : Nat) + 3 * (cfg.P : Nat)) n evs :=
-  reply_run hok G hG x y r r0 T aL aH hnr evs n stx sty coll tl hq hN haL haH hs
+    RplRun cfg x y aL aH .masterNotReady (r + 2 * ((cfg.ce 5 : Nat) : Int) + (cfg.b33 : Nat) + 3 * (cfg.P : Nat)) n evs :=
+  reply_run hok G hG x y r r0 T aL aH .masterNotReady (fun s hs' => listenReport_notReady s _ (by rw [hs']; exact hnr))
+    evs n stx sty coll tl hq hN haL haH hs
+
+/-- **A GAP request to a listening station that is READY is answered "master without token" and the station is
+adopted as next station** (C02 / C12 on the bus, any lag; the admission of a late joiner or of the second station of
+a cold start).  As `gap_request_answered_not_ready`, with the requester `x` either in `ClaimToken` (claim sweep) or —
+the regular case — the token holder in `AwaitStatusResponse` (`AwaitSt`), and the listener ready with the requester
+as its previous station when it has heard everything up to the request (`hrdy`).  Then (`RplRun` with report
+`masterWithoutToken`): the listener registers the request, waits 33 bit, sends the reply "master without token" in
+exactly one poll and goes to `ActiveIdle`, where it stays quiet; the requester's slot time never runs out; it
+consumes the reply exactly when it is complete, in whatever pieces it arrives, no later than
+`r + 2·⌈66 bit⌉ + bits 33 + 3P`, and ADOPTS the station: in its ring view the polled address is active and is the
+next station (`HQ3.last`), its state is `PassToken` (token holder: it will pass the token to the new station after the
+synchronisation pause) resp. `ClaimToken(Scan)`.  The token pass to the new station and its first visit are not
+part of this theorem. -/
+theorem gap_request_answered_ready (cfg : Cfg) (hok : cfg.Ok) (G : Nat) (hG : cfg.slot + 3 * cfg.P ≤ G) (x y : Nat)
+    (r : Int) (r0 : TokenRing) (T : List Telegram) (aL aH : Nat)
+    (hrdy : (hearAll aL T r0).readyForRing = true ∧ (hearAll aL T r0).ps = aL)
+    (evs : List (Nat × Int)) (n : Net) (stx sty : NetStation) (coll : Nat) (tl : Int)
+    (hq : HQ cfg G n x y stx sty r r0 T .masterWithoutToken coll tl) (hN : n.stations.length = 2)
+    (haL : stx.s.p.address = aL) (haH : sty.s.p.address = aH) (hs : SchedN cfg.P n tl evs) :
+    RplRun cfg x y aL aH .masterWithoutToken (r + 2 * ((cfg.ce 5 : Nat) : Int) + (cfg.b33 : Nat) + 3 * (cfg.P : Nat)) n evs :=
+  reply_run hok G hG x y r r0 T aL aH .masterWithoutToken
+    (fun s hs' => by unfold StationGap.listenReport; rw [hs', hrdy.1, hrdy.2]; simp)
+    evs n stx sty coll tl hq hN haL haH hs
 
 /-! Non-vacuity: the request of station 3 to address 5 started at 1000 µs and has been registered by the listener at
 1150 µs (phase `HQ1`); both polled every 100 µs; the reply is sent at 1250 µs and consumed at 1400 µs. -/
@@ -1163,7 +1187,7 @@ theorem hq1Q : HQ1 cfgR netQ 0 1 nsQ3 nsQ5 1000 1150 0 1150 := by
   have hce : cEnd cfgR (rqTx 0 3 5 1000) = 1132 := by rw [cEnd_rq]; decide
   have hpos : 0 < (rqTx 0 3 5 1000).bytes.length := by
     show 0 < (StationGap.statusRequestBytes 5 3).length; rw [StationGap.statusRequestBytes_length]; decide
-  refine ⟨?_, rfl, rfl, ?_, rfl, by decide, by decide, by decide, by decide, ?_, rfl, ?_, by decide⟩
+  refine ⟨?_, .inl rfl, rfl, ?_, rfl, by decide, by decide, by decide, by decide, ?_, rfl, ?_, by decide, rfl⟩
   · exact ⟨rfl, rfl, rfl, List.pairwise_singleton _ _,
       (fun o ho => by simp only [netQ, List.mem_singleton] at ho; subst ho; rfl),
       (fun o ho => by simp only [netQ, List.mem_singleton] at ho; subst ho; exact hpos),
@@ -1182,9 +1206,59 @@ theorem hq1Q : HQ1 cfgR netQ 0 1 nsQ3 nsQ5 1000 1150 0 1150 := by
 def evsRp : List (Nat × Int) := [(0, 1200), (1, 1250), (0, 1300), (1, 1350), (0, 1400), (1, 1450), (0, 1500), (1, 1550)]
 
 open PV.C13 in
-example : RplRun cfgR 0 1 3 5 1630 netQ evsRp :=
+example : RplRun cfgR 0 1 3 5 .masterNotReady 1630 netQ evsRp :=
   gap_request_answered_not_ready cfgR cfgR_ok 1000 (by decide) 0 1 1000 (TokenRing.new 5) [] 3 5 (by decide) evsRp netQ nsQ3 nsQ5
     0 1150 (.inr (.inl ⟨1150, hq1Q, by decide⟩)) rfl rfl rfl
+    (schedN_of_times _ _ _ _ (schedNT_of_b 100 2 evsRp [1140, 1150] 1150 (by decide)))
+
+/-! Non-vacuity of the ready variant: station 3 holds the token alone and awaits the status reply of address 5
+(`AwaitStatusResponse`, request started at 1000 µs); station 5 has witnessed three tokens of station 3 (ready, previous
+station 3) and registered the request at 1150 µs. -/
+def rdy5 : TokenRing := witnessK 3 3 (TokenRing.new 5)
+open PV.C13 in
+def sA3 : Station := { (Station.new pR3) with online := true, st := .awaitStatus 5, gap := .doPoll 5, lastBusActivity := some 1132 }
+open PV.C13 in
+def sR5 : Station := { (Station.new pR5) with online := true, st := .listenToken (some 3) 0, lastBusActivity := some 1150, ring := rdy5 }
+def nsA3 : NetStation := { s := sA3, apps := [], online := true }
+def nsR5 : NetStation := { s := sR5, apps := [], online := true }
+def netA : Net := { bus := { rate := 500000, txs := [rqTx 0 3 5 1000], seen := [1140, 1150] }, stations := [nsA3, nsR5] }
+
+open PV.C13 in
+theorem hq1A : HQ1 cfgR netA 0 1 nsA3 nsR5 1000 1150 0 1150 := by
+  have hinv3 : Inv sA3 [] := by
+    have h := inv_new pR3 [] (by decide) (by decide) (by intro s hs; cases hs)
+    exact ⟨h.addr, h.hsa, h.ring, fun ho => by simp [sA3] at ho, fun cur hc => by simp [sA3] at hc; subst hc; decide,
+      fun a ha => by simp [sA3] at ha; subst ha; exact ⟨rfl, by decide⟩, fun a ha => by simp [sA3] at ha, h.app,
+      fun a d ha => by simp [sA3] at ha, h.scripts, by simp [sA3]⟩
+  have hinv5 : Inv sR5 [] := by
+    have h := inv_new pR5 [] (by decide) (by decide) (by intro s hs; cases hs)
+    exact ⟨h.addr, h.hsa,
+      (TokenRing.witness_ok _ 3 3 (TokenRing.witness_ok _ 3 3 (TokenRing.witness_ok _ 3 3 (TokenRing.new_ok 5 (by decide))).1).1).1,
+      fun ho => by simp [sR5] at ho, h.gap, fun a ha => by simp [sR5] at ha,
+      fun a ha => by simp [sR5] at ha, h.app, fun a d ha => by simp [sR5] at ha, h.scripts, by simp [sR5]⟩
+  have hce : cEnd cfgR (rqTx 0 3 5 1000) = 1132 := by rw [cEnd_rq]; decide
+  have hpos : 0 < (rqTx 0 3 5 1000).bytes.length := by
+    show 0 < (StationGap.statusRequestBytes 5 3).length; rw [StationGap.statusRequestBytes_length]; decide
+  refine ⟨?_, .inr rfl, rfl, ?_, rfl, by decide, by decide, by decide, by decide, ?_, rfl, ?_, by decide, rfl⟩
+  · exact ⟨rfl, rfl, rfl, List.pairwise_singleton _ _,
+      (fun o ho => by simp only [netA, List.mem_singleton] at ho; subst ho; rfl),
+      (fun o ho => by simp only [netA, List.mem_singleton] at ho; subst ho; exact hpos),
+      (fun o ho => by simp only [netA, List.mem_singleton] at ho; subst ho; exact .inl rfl),
+      (fun o ho _ => by simp only [netA, List.mem_singleton] at ho; subst ho; rw [hce]; decide),
+      by decide, by decide, rfl, rfl, rfl, hinv3, rfl, rfl, rfl, rfl, rfl⟩
+  · exact ⟨rfl, rfl, rfl, List.pairwise_singleton _ _,
+      (fun o ho => by simp only [netA, List.mem_singleton] at ho; subst ho; rfl),
+      (fun o ho => by simp only [netA, List.mem_singleton] at ho; subst ho; exact hpos),
+      (fun o ho => by simp only [netA, List.mem_singleton] at ho; subst ho; right; rw [hce]; decide),
+      (fun o ho hs => by simp only [netA, List.mem_singleton] at ho; subst ho; cases hs),
+      by decide, by decide, rfl, rfl, rfl, hinv5, rfl, rfl, rfl, rfl, rfl⟩
+  · intro t ht; simp only [netA, List.mem_singleton] at ht; subst ht; rfl
+  · intro t ht; simp only [netA, List.mem_singleton] at ht; subst ht; decide
+
+open PV.C13 in
+example : RplRun cfgR 0 1 3 5 .masterWithoutToken 1630 netA evsRp :=
+  gap_request_answered_ready cfgR cfgR_ok 1000 (by decide) 0 1 1000 rdy5 [] 3 5 (by decide) evsRp netA nsA3 nsR5
+    0 1150 (.inr (.inl ⟨1150, hq1A, by decide⟩)) rfl rfl rfl
     (schedN_of_times _ _ _ _ (schedNT_of_b 100 2 evsRp [1140, 1150] 1150 (by decide)))
 
 /-! ## Cold start of two stations up to the first answered GAP request (one theorem) -/
